@@ -158,6 +158,8 @@ def add_to_search_space(vz, root, p, default=None):
   elif p['t'] == 'S':
     root.add_discrete_param(p['name'], list(p['vals']), scale_type=sc, **kw)
   elif p.get('bool'):
+    if list(p['cats']) != ['False', 'True']:
+      kw['feasible_values'] = [v == 'True' for v in p['cats']]     # a boolean restricted to one value
     root.add_bool_param(p['name'], **kw)          # CATEGORICAL ['False', 'True'] with external type BOOLEAN
   else:
     root.add_categorical_param(p['name'], list(p['cats']), **kw)
